@@ -94,6 +94,8 @@ func classifyErr(err error) string {
 	return ObsError
 }
 
+var poisonCheck bool
+
 type worker struct {
 	env     *zygo.Zlisp // shared by the panic-search entry points
 	tieEnv  *zygo.Zlisp // compile-only environment of the model tie
@@ -108,8 +110,17 @@ func newEnv() *zygo.Zlisp {
 	return env
 }
 
+// poisoned is called when a NEW interpreter can no longer be created in this process
+// (NewZlisp+StandardSetup panics): some earlier input damaged process-global state.
+var poisoned func(pi *panicInfo)
+
 func (w *worker) fresh() {
-	w.env = newEnv()
+	var env *zygo.Zlisp
+	_, pi := guard(func() string { env = newEnv(); return "" })
+	if pi != nil {
+		poisoned(pi)
+	}
+	w.env = env
 	w.used = 0
 }
 
@@ -339,11 +350,14 @@ var formNames = map[string]bool{"and": true, "or": true, "cond": true, "quote": 
 	"syntaxQuote": true, "include": true, "for": true, "set": true, "break": true, "continue": true, "newScope": true,
 	"package": true, "return": true, "_ls": true}
 
+var builtinTable map[string]bool
+
 // symCode: Y:<name-class>:<flags>:<number>
-//   name-class: the special-form name when GenerateCallBySymbol's switch has a case for it,
-//               "unquote", "unquote-splicing", "assign" (= or :=), otherwise "-"
-//   flags: b IsBuiltinSym, m HasMacro, d isDot, s evaluates to itself (dot, keyword, ?-sigil),
-//          B bound to a builder, X bound to the infix builder, g bound to anything else
+//
+//	name-class: the special-form name when GenerateCallBySymbol's switch has a case for it,
+//	            "unquote", "unquote-splicing", "assign" (= or :=), otherwise "-"
+//	flags: b IsBuiltinSym, m HasMacro, d isDot, s evaluates to itself (dot, keyword, ?-sigil),
+//	       B bound to a builder, X bound to the infix builder, g bound to anything else
 func symCode(env *zygo.Zlisp, s *zygo.SexpSymbol) string {
 	name := s.Name()
 	cls := "-"
@@ -358,6 +372,15 @@ func symCode(env *zygo.Zlisp, s *zygo.SexpSymbol) string {
 	flags := ""
 	if b, _ := env.IsBuiltinSym(s); b {
 		flags += "b"
+	}
+	if builtinTable == nil {
+		builtinTable = map[string]bool{}
+		for _, n := range env.VerifBuiltinNames() {
+			builtinTable[n] = true
+		}
+	}
+	if builtinTable[name] {
+		flags += "f"
 	}
 	if env.HasMacro(s) {
 		flags += "m"
@@ -418,6 +441,14 @@ func workerMain(st Stream, from, to int, progressPath, resultPath string, budget
 		syscall.Dup2(int(devnull.Fd()), 1)
 	}
 	debug.SetMemoryLimit(3 << 30)
+	if ms := os.Getenv("C01_MAXSTACK_MB"); ms != "" {
+		// unbounded Go recursion shows within seconds instead of after filling the default 1 GB stack
+		var mb int
+		fmt.Sscanf(ms, "%d", &mb)
+		if mb > 0 {
+			debug.SetMaxStack(mb << 20)
+		}
+	}
 	var lim syscall.Rlimit
 	lim.Cur, lim.Max = 6<<30, 6<<30
 	syscall.Setrlimit(syscall.RLIMIT_AS, &lim)
@@ -462,6 +493,14 @@ func workerMain(st Stream, from, to int, progressPath, resultPath string, budget
 		}
 	}()
 
+	envStart := from
+	poisoned = func(pi *panicInfo) {
+		a := anomaly{Idx: int(atomic.LoadInt64(&curIdx)), Stream: st.Name(), Entry: "NewZlisp+StandardSetup", Class: "POISONED", Site: pi.site, Msg: pi.msg, EnvStart: envStart}
+		b, _ := json.Marshal(a)
+		fmt.Fprintf(res, "A\t%s\n", b)
+		res.Flush()
+		os.Exit(5)
+	}
 	w := &worker{budget: budget, refresh: 3000}
 	w.fresh()
 	w.tieEnv = newEnv()
@@ -471,12 +510,12 @@ func workerMain(st Stream, from, to int, progressPath, resultPath string, budget
 	if only >= 0 {
 		entries = []int{only}
 	}
-	envStart := from
 	tie := st.Name() == "forms" || st.Name() == "mutants" || strings.HasPrefix(st.Name(), "file:")
 	if only >= 0 {
 		tie = false
 	}
 	nTie := 0
+	seenPanic := map[string]int{}
 	for i := from; i < to; i++ {
 		src := st.Input(i)
 		tags[st.Tag(i)]++
@@ -493,29 +532,54 @@ func workerMain(st Stream, from, to int, progressPath, resultPath string, budget
 				nTie++
 			}
 		}
+		if (i-from)%200 == 199 {
+			// checkpoint: statistics so far (the parent keeps them when this child dies later)
+			hb, _ := json.Marshal(map[string]interface{}{"hist": hist, "tags": tags, "n": 200, "tie": nTie, "upto": i})
+			fmt.Fprintf(res, "H\t%s\n", hb)
+			res.Flush()
+			hist = map[string]int{}
+			tags = map[string]int{}
+		}
 		for _, e := range entries {
 			setProgress(i, e)
 			obs, pi := runEntry(w.env, e, src, w.budget)
 			hist[entryNames[e]+":"+obs]++
 			if obs == ObsPanic {
-				// is the input enough on its own? retry in a fresh interpreter
-				fe := newEnv()
-				obs2, pi2 := runEntry(fe, e, src, w.budget)
+				key := entryNames[e] + "|" + pi.site + "|" + pi.msg
+				seenPanic[key]++
 				a := anomaly{Idx: i, Stream: st.Name(), Entry: entryNames[e], Class: ObsPanic, Site: pi.site, Msg: pi.msg, Input: src, EnvStart: envStart}
-				if obs2 == ObsPanic {
+				if seenPanic[key] <= 3 {
+					// is the input enough on its own? retry in a fresh interpreter
+					fe := newEnv()
+					obs2, pi2 := runEntry(fe, e, src, w.budget)
+					if obs2 == ObsPanic {
+						a.Standalone = true
+						a.Site, a.Msg = pi2.site, pi2.msg
+					}
+					w.fresh()
+					envStart = i + 1
+				} else {
+					// a class already confirmed in this child: keep the interpreter (Clear/Reset done)
 					a.Standalone = true
-					a.Site, a.Msg = pi2.site, pi2.msg
+					a.Msg = pi.msg + " (not re-tried)"
 				}
-				b, _ := json.Marshal(a)
-				fmt.Fprintf(res, "A\t%s\n", b)
-				res.Flush()
-				w.fresh()
-				envStart = i + 1
+				if seenPanic[key] <= 40 {
+					b, _ := json.Marshal(a)
+					fmt.Fprintf(res, "A\t%s\n", b)
+					res.Flush()
+				} else {
+					hist["more-panics:"+entryNames[e]+"|"+pi.site]++
+				}
 			}
 		}
 	}
+	if poisonCheck || (to-from) > 1 {
+		// can a new interpreter still be created in this process?
+		atomic.StoreInt64(&curIdx, int64(to-1))
+		w.fresh()
+	}
 	atomic.StoreInt64(&curIdx, -1)
-	hb, _ := json.Marshal(map[string]interface{}{"hist": hist, "tags": tags, "n": to - from, "tie": nTie})
+	hb, _ := json.Marshal(map[string]interface{}{"hist": hist, "tags": tags, "n": (to - from) % 200, "tie": nTie, "upto": to})
 	fmt.Fprintf(res, "H\t%s\n", hb)
 	res.Flush()
 	resf.Close()
